@@ -37,7 +37,8 @@ RULE = ("messages: every template (quick 3, thorough 24 per template per zone), 
         "vector types, through binary (+/- header), zipped, notation and XML. distinct_nontrivial = distinct (codec, tree "
         "shape) pairs and distinct (message, block-count vector) pairs that round-tripped"
         ". Round-5 addition: every third case is repeated through a second LLSDMessageSerializer built on a caller-supplied template (other wire types), living next to the stock one, then the stock one again"
-        ". Rounds 6-7: a long-lived serializer whose template dictionary is reloaded in place with a revised template, compared with a fresh one; LLSD codecs and the message serializer from four threads; stock-dictionary fingerprint")
+        ". Rounds 6-7: a long-lived serializer whose template dictionary is reloaded in place with a revised template, compared with a fresh one; LLSD codecs and the message serializer from four threads; stock-dictionary fingerprint"
+        ". Round 8: EventQueueManager.inject_message with Message objects that are edited or injected again before the poll, plain events in between - one event per injection, in order, converting back to the message as injected")
 ASSUMPTIONS = [
     "LLSD has no vector type: the library's vector types compare as their component arrays",
     "naive datetimes follow the LLSD convention (UTC); dates compare as instants; dates are drawn from 1970..2100",
